@@ -1,6 +1,7 @@
 package rules
 
 import (
+	"go/types"
 	"go/constant"
 	"go/token"
 	"strings"
@@ -37,7 +38,8 @@ func c18(e *Env) {
 		if !ok {
 			continue
 		}
-		if f := fieldOfLoad(mu.Map); f == nil || f.Name() != e.subFieldName() {
+		// the per-port member table: a map[string][]*FileIP (the task's field, or a local map that is stored into it)
+		if mt, ok := mu.Map.Type().Underlying().(*types.Map); !ok || !isFileIPSlice(mt.Elem()) {
 			continue
 		}
 		nStores++
@@ -59,7 +61,7 @@ func c18(e *Env) {
 		hasAppendRecv := false
 		for s, z := range alts {
 			switch {
-			case s == "[]" || s == "makeslice()" || s == "nil":
+			case s == "[]" || s == "makeslice()" || s == "nil" || (strings.HasPrefix(s, "slice(") && strings.HasSuffix(s, ", 0)")):
 				// a fresh empty slice: it must be created anew for every joined port, i.e. inside the loop over the ports
 				if in, ok := z.Val.(ssa.Instruction); ok && z.Fn != nil {
 					inLoop := false
@@ -84,7 +86,7 @@ func c18(e *Env) {
 					}
 				}
 			case s == "↺":
-			case strings.HasPrefix(s, "builtin.append(↺, [recv(") && strings.Contains(s, ".SubStream.Chan"):
+			case strings.HasPrefix(s, "builtin.append(↺, [") && strings.Contains(s, "recv(") && strings.Contains(s, ".SubStream.Chan") && strings.Count(s, "builtin.append(") == 1:
 				hasAppendRecv = true
 			default:
 				bad = "the stored slice can be " + trunc(s, 120)
@@ -102,8 +104,13 @@ func c18(e *Env) {
 							bad = "the drain loop can be left before the sub-stream is closed"
 						}
 					} else if l := core.InnermostLoop(u); l != nil {
-						// a range over a channel has no index/ok header of the recognised kinds: judge its early exits directly
-						okLoop = len(p.EarlyExitEdges(l)) == 0
+						// an explicit `for { v, ok := <-ch; if !ok { break }; ... }`: with the channel still open (ok = true)
+						// the loop must not be left before the next receive
+						res := gt.Run(core.Scenario{Start: rn, Result: core.TupleAV(core.Top, core.BoolAV(true))})
+						w := res.ReachesAvoiding(func(m *core.Node) bool {
+							return m.Ctx == rn.Ctx && m.Instr != nil && m.Kind != core.KAfter && !l.Blocks[m.Instr.Block()]
+						}, func(m *core.Node) bool { return m == rn })
+						okLoop = w == nil
 						if !okLoop {
 							bad = "the drain loop can be left before the sub-stream is closed"
 						}
@@ -254,4 +261,10 @@ func itoa(i int) string {
 		i /= 10
 	}
 	return s
+}
+
+// isFileIPSlice: []*FileIP.
+func isFileIPSlice(t types.Type) bool {
+	sl, ok := t.Underlying().(*types.Slice)
+	return ok && typeNamed(sl.Elem()) != nil && typeNamed(sl.Elem()).Obj().Name() == "FileIP"
 }
